@@ -41,7 +41,7 @@ def _stage(spec_dirs, work):
 
 
 def run_tlc(component, module, cfg, workers=1, timeout=600, extra=(), env=None, jvm=(),
-            simulate=None, depth=None, coverage=False, cfg_text=None, keep=None, heap='4g'):
+            simulate=None, depth=None, coverage=False, cfg_text=None, keep=None, heap='4g', extra_files=None):
     """Run TLC on specs/<component>/<module>.tla with <cfg>; returns (stdout, seconds)."""
     work = scratch('tlc-')
     try:
@@ -49,6 +49,9 @@ def run_tlc(component, module, cfg, workers=1, timeout=600, extra=(), env=None, 
         if cfg_text is not None:
             with open(os.path.join(work, cfg), 'w') as f:
                 f.write(cfg_text)
+        for name, text in (extra_files or {}).items():
+            with open(os.path.join(work, name), 'w') as f:
+                f.write(text)
         cmd = ['java', '-XX:+UseParallelGC' if workers != 1 else '-XX:+UseSerialGC', '-Xmx' + heap]
         cmd += list(jvm)
         cmd += ['-cp', _classpath(), 'tlc2.TLC', '-workers', str(workers), '-metadir',
